@@ -149,6 +149,13 @@ class JsonSchemaParser:
         if ref:
             return ForwardRef(self.get_def_name(ref))
 
+        if not type:
+            # structural keywords without an explicit type
+            if 'properties' in schema or 'required' in schema:
+                type = 'object'
+            elif 'items' in schema or 'prefixItems' in schema:
+                type = 'array'
+
         constraints = {}
         if with_constraints:
             constraints = self.get_constraints(schema)
@@ -191,7 +198,8 @@ class JsonSchemaParser:
 
         if constraints:
             return Rule.annotate(
-                t,
+                # constraints cannot be attached to Any: leave the origin to be inferred from them
+                None if t is Any else t,
                 name=name,
                 description=description,
                 constraints=constraints
@@ -222,6 +230,11 @@ class JsonSchemaParser:
         name = name or 'ObjectSchema'
         properties = schema.get('properties') or {}
         required = schema.get('required') or []
+        if required:
+            # a required name without a property schema is a property of any type
+            properties = dict(properties)
+            for key in required:
+                properties.setdefault(key, {})
         additional_properties = schema.get("additionalProperties", unprovided)
         min_properties = schema.get("minProperties", unprovided)
         max_properties = schema.get("maxProperties", unprovided)
